@@ -99,6 +99,12 @@ def build_case(p):
     src = np.where(use_ext, ext_idx, src)
     rr, cc = np.nonzero(tie)
     cost[rr, cc, dst[rr, cc]] = cost[rr, cc, src[rr, cc]]
+    if p.get("deep"):
+        # a disparity axis longer than 32767 samples whose winners sit beyond index 32767 (index types narrower than
+        # the axis would wrap)
+        cost[:] = np.float32(-5.0 if p["mx"] else 5.0)
+        for j in range(nc):
+            cost[0, j, nd - 7 - 10 * j] = np.float32(13.0 if p["mx"] else -7.0)
     disps = np.array([p["dmin"] + k * p["dstep"] for k in range(nd)], dtype=np.float64)
     lo = hi = None
     if p["interval"]:
@@ -332,6 +338,10 @@ def run(ctx):
             cases.append(gen_params(rng, quick, i))
         for _ in range(8 if quick else 100):
             cases.append(gen_inf_params(rng))
+        deep = gen_params(rng, quick, 0)
+        deep.update({"nr": 1, "nc": 1, "nd": 32800, "deep": True, "interval": False, "nan_ratio": 0.0, "ties": 0.0,
+                     "dstep": 1, "quarter": False, "inf": False, "nind": 0})
+        cases.append(deep)
         if not quick:
             # all shape pairs around the block boundaries with 2 disparities
             for a in list(range(98, 103)) + list(range(198, 203)):
